@@ -395,9 +395,14 @@ SKIP = {"timestamp", "task_uuid", "task_level", "message_type", "action_type", "
 
 
 def check_formats(PP, m):
+    """What the statement fixes, no more: the output starts with task_uuid, task_level and the UTC timestamp to
+    the microsecond; every remaining field is shown by name with its value; type and status come first; the
+    compact form is one line of key=<JSON encoding> parts.  (The order of the other fields, the punctuation
+    of the header and how pretty_format renders a value are the implementation's.)"""
     level = "/" + "/".join(str(i) for i in m["task_level"])
     want_dt = datetime.datetime(1970, 1, 1) + datetime.timedelta(seconds=m["timestamp"])
-    ordered = [k for k in FIRST if k in m] + sorted(k for k in m if k not in SKIP)
+    first = [k for k in FIRST if k in m]
+    others = sorted(k for k in m if k not in SKIP)
     # ---- pretty
     try:
         p = PP.pretty_format(m)
@@ -405,27 +410,32 @@ def check_formats(PP, m):
         raise Violation(("format_raised", {"fn": "pretty_format", "exc": type(ex).__name__}),
                         "pretty_format raised %s: %s on %r" % (type(ex).__name__, ex, m))
     lines = p.split("\n")
-    if lines[0] != "%s -> %s" % (m["task_uuid"], level):
+    if not lines[0].startswith(m["task_uuid"]) or level not in lines[0][len(m["task_uuid"]):]:
         raise Violation(("pretty", {"part": "header"}), "pretty_format header %r for %s %s" % (lines[0], m["task_uuid"], level))
-    _check_ts(lines[1], want_dt, "pretty")
-    pos = 2
-    for k in ordered:
-        head = "  %s: " % (k,)
-        while pos < len(lines) and not lines[pos].startswith(head):
-            if lines[pos].startswith("  ") and not lines[pos].startswith("   ") and ": " in lines[pos] and \
-                    lines[pos].split(": ")[0][2:] in m and "|" not in lines[pos].split(": ")[0]:
-                # another field's header where ours should be: out of order or ours is missing
-                break
-            pos += 1
-        if pos >= len(lines) or not lines[pos].startswith(head):
+    _check_ts(lines[1].strip(), want_dt, "pretty")
+    where = {}
+    for i in range(2, len(lines)):
+        ln = lines[i]
+        if ln.startswith("  ") and not ln.startswith("   ") and ": " in ln:
+            name = ln[2:].split(": ")[0]
+            if name in m and name not in where:
+                where[name] = i
+    missing = [k for k in first + others if k not in where]
+    if missing:
+        raise Violation(("pretty", {"part": "field_missing_or_misordered"}),
+                        "pretty_format does not show field %r:\n%s" % (missing[0], p))
+    if first:
+        if [where[k] for k in first] != sorted(where[k] for k in first) or \
+                (others and max(where[k] for k in first) > min(where[k] for k in others)):
             raise Violation(("pretty", {"part": "field_missing_or_misordered"}),
-                            "pretty_format does not show field %r (in order %s):\n%s" % (k, ordered, p))
+                            "pretty_format does not show type and status first:\n%s" % p)
+    for k in first + others:
         v = m[k]
         if isinstance(v, (int, float, bool)) or v is None or (
                 isinstance(v, str) and "\\" not in repr(v) and len(repr(v)) < 38):
-            if lines[pos] != head + repr(v):
-                raise Violation(("pretty", {"part": "value"}), "pretty_format shows %r as %r" % (v, lines[pos]))
-        pos += 1
+            shown = lines[where[k]][len("  %s: " % k):]
+            if shown not in (repr(v), str(v), json.dumps(v)):
+                raise Violation(("pretty", {"part": "value"}), "pretty_format shows %r as %r" % (v, lines[where[k]]))
     # ---- compact
     try:
         c = PP.compact_format(m)
@@ -434,15 +444,36 @@ def check_formats(PP, m):
                         "compact_format raised %s: %s on %r" % (type(ex).__name__, ex, m))
     if "\n" in c:
         raise Violation(("compact", {"part": "newline"}), "compact_format output contains a newline: %r" % c)
-    pre = "%s%s " % (m["task_uuid"], level)
-    if not c.startswith(pre):
+    if not c.startswith(m["task_uuid"]) or not c[len(m["task_uuid"]):].lstrip(" ->").startswith(level + " "):
         raise Violation(("compact", {"part": "header"}), "compact_format starts %r" % c[:80])
-    rest = c[len(pre):]
+    rest = c[len(m["task_uuid"]):].lstrip(" ->")[len(level) + 1:]
     ts, _, fields = rest.partition(" ")
     _check_ts(ts, want_dt, "compact")
-    want = " ".join("%s=%s" % (k, json.dumps(m[k], separators=(",", ":"))) for k in ordered)
-    if fields != want:
-        raise Violation(("compact", {"part": "fields"}), "compact_format fields %r, expected %r" % (fields, want))
+    # key=value parts, each the JSON encoding of the value (either separator style), type and status first
+    todo = {}
+    for k in first + others:
+        todo[k] = ["%s=%s" % (k, json.dumps(m[k], separators=(",", ":"))), "%s=%s" % (k, json.dumps(m[k]))]
+    seen_order = []
+    while fields:
+        hit = None
+        for k, alts in todo.items():
+            for alt in alts:
+                if fields == alt or fields.startswith(alt + " "):
+                    hit = (k, alt)
+                    break
+            if hit:
+                break
+        if hit is None:
+            raise Violation(("compact", {"part": "fields"}),
+                            "compact_format: %r is not a key=<JSON encoding> part of the remaining fields %s" % (
+                                fields[:80], sorted(todo)))
+        del todo[hit[0]]
+        seen_order.append(hit[0])
+        fields = fields[len(hit[1]):].lstrip(" ")
+    if todo:
+        raise Violation(("compact", {"part": "fields"}), "compact_format does not show %s: %r" % (sorted(todo), c))
+    if seen_order[:len(first)] != first:
+        raise Violation(("compact", {"part": "fields"}), "compact_format does not put type and status first: %r" % c)
 
 
 def _check_ts(text, want_dt, which):
